@@ -33,3 +33,368 @@ Section UnfixedRefuted.
     - vm_compute. reflexivity.
   Qed.
 End UnfixedRefuted.
+
+(* ================================================================== *)
+(* Generic facts: the loop combinators *)
+Lemma run_app {A S} (f : A -> S -> outcome A) l1 l2 a :
+  run f (l1 ++ l2) a = bind (run f l1 a) (run f l2).
+Proof.
+  revert a. induction l1 as [|s l1 IH]; intros a; simpl; [reflexivity|].
+  destruct (f a s); simpl; auto.
+Qed.
+
+Definition pair_res {A B} (ra : outcome A) (rb : outcome B) : outcome (A * B) :=
+  match ra, rb with Ok a, Ok b => Ok (a, b) | _, _ => Err end.
+
+Definition crash_free {A S} (f : A -> S -> outcome A) : Prop := forall a s, f a s <> Crash.
+
+Lemma run_crash_free {A S} (f : A -> S -> outcome A) : crash_free f -> forall l a, run f l a <> Crash.
+Proof.
+  intros Hf l. induction l as [|s l IH]; intros a; simpl; [discriminate|].
+  destruct (f a s) eqn:E; [apply IH | discriminate | exfalso; exact (Hf a s E)].
+Qed.
+
+Lemma run_par {A B S} (f : A -> S -> outcome A) (g : B -> S -> outcome B) :
+  crash_free f -> crash_free g ->
+  forall l a b, run (par f g) l (a, b) = pair_res (run f l a) (run g l b).
+Proof.
+  intros Hf Hg l. induction l as [|s l IH]; intros a b; simpl; [reflexivity|].
+  unfold par at 1; simpl.
+  destruct (f a s) as [a'| |] eqn:Ef; simpl.
+  - destruct (g b s) as [b'| |] eqn:Eg; simpl.
+    + apply IH.
+    + destruct (run f l a'); reflexivity.
+    + exfalso; exact (Hg b s Eg).
+  - reflexivity.
+  - exfalso; exact (Hf a s Ef).
+Qed.
+
+Lemma par_crash_free {A B S} (f : A -> S -> outcome A) (g : B -> S -> outcome B) :
+  crash_free f -> crash_free g -> crash_free (par f g).
+Proof.
+  intros Hf Hg [a b] s. unfold par; simpl.
+  destruct (f a s) eqn:Ef; simpl; [|discriminate|exact (fun _ => Hf a s Ef)].
+  destruct (g b s) eqn:Eg; simpl; [discriminate|discriminate|exact (fun _ => Hg b s Eg)].
+Qed.
+
+Lemma run_part {F S} (add : list F -> F -> outcome (list F)) (claim : S -> list F) l X :
+  run (part add claim) l X = run add (flat_map claim l) X.
+Proof.
+  revert X. induction l as [|s l IH]; intros X; simpl; [reflexivity|].
+  rewrite run_app. unfold part at 1. destruct (run add (claim s) X); simpl; auto.
+Qed.
+
+Lemma part_crash_free {F S} (add : list F -> F -> outcome (list F)) (claim : S -> list F) :
+  crash_free add -> crash_free (part add claim).
+Proof. intros H X s. unfold part. apply run_crash_free. exact H. Qed.
+
+(* ------------------------------------------------------------------ *)
+(* Generic facts: merging facts into a table *)
+Section Collect.
+  Context {F : Type} (dec : forall a b : F, {a = b} + {a <> b}) (valid : F -> bool) (confl : F -> F -> bool).
+  Hypothesis confl_sym : forall f g, confl f g = confl g f.
+  Hypothesis confl_irrefl : forall f, confl f f = false.
+
+  Definition addf (X : list F) (f : F) : outcome (list F) := lift (ins dec valid confl X f).
+
+  Definition fbad (fs : list F) : Prop :=
+    (exists f, In f fs /\ valid f = false) \/ (exists f g, In f fs /\ In g fs /\ confl f g = true).
+  Definition fgood (fs X : list F) : Prop :=
+    NoDup X /\ (forall f, In f X <-> In f fs) /\ (forall f, In f fs -> valid f = true) /\
+    (forall f g, In f fs -> In g fs -> confl f g = false).
+
+  Lemma addf_crash_free : crash_free addf.
+  Proof. intros X f. unfold addf. destruct (ins dec valid confl X f); discriminate. Qed.
+
+  Lemma fbad_app fs f : fbad fs -> fbad (fs ++ [f]).
+  Proof.
+    intros [(x & Hx & Hv) | (x & y & Hx & Hy & Hc)].
+    - left. exists x. split; [apply in_or_app; auto | exact Hv].
+    - right. exists x, y. repeat split; try (apply in_or_app; auto). exact Hc.
+  Qed.
+
+  Lemma NoDup_snoc (X : list F) f : NoDup X -> ~ In f X -> NoDup (X ++ [f]).
+  Proof.
+    intros HN Hn. apply Permutation_NoDup with (l := f :: X).
+    - apply Permutation_cons_append.
+    - constructor; assumption.
+  Qed.
+
+  Lemma collect_char fs :
+    match run addf fs [] with
+    | Ok X => fgood fs X
+    | Err => fbad fs
+    | Crash => False
+    end.
+  Proof.
+    induction fs as [|f fs IH] using rev_ind.
+    - simpl. repeat split; try constructor; intros; try contradiction; tauto.
+    - rewrite run_app. destruct (run addf fs []) as [X| |]; simpl; [|apply fbad_app; exact IH|exact IH].
+      destruct IH as (HN & HI & HV & HC).
+      unfold addf, ins. destruct (valid f) eqn:Ev; simpl.
+      2:{ left. exists f. split; [apply in_or_app; right; left; reflexivity | exact Ev]. }
+      destruct (existsb (confl f) X) eqn:Ec; simpl.
+      { apply existsb_exists in Ec. destruct Ec as (g & Hg & Hc).
+        right. exists f, g. split; [apply in_or_app; right; left; reflexivity|].
+        split; [apply in_or_app; left; apply HI; exact Hg | exact Hc]. }
+      assert (Hcf : forall g, In g fs -> confl f g = false).
+      { intros g Hg. destruct (confl f g) eqn:E; [|reflexivity].
+        assert (existsb (confl f) X = true) by (apply existsb_exists; exists g; split; [apply HI; exact Hg | exact E]).
+        congruence. }
+      assert (HV' : forall x, In x (fs ++ [f]) -> valid x = true).
+      { intros x Hx. apply in_app_or in Hx. destruct Hx as [Hx | [<- | []]]; auto. }
+      assert (HC' : forall x y, In x (fs ++ [f]) -> In y (fs ++ [f]) -> confl x y = false).
+      { intros x y Hx Hy. apply in_app_or in Hx. apply in_app_or in Hy.
+        destruct Hx as [Hx | [<- | []]]; destruct Hy as [Hy | [<- | []]]; auto.
+        rewrite confl_sym. auto. }
+      destruct (in_dec dec f X) as [Hin | Hnin]; simpl.
+      + repeat split; auto.
+        * intros Hx. apply in_or_app. left. apply HI. exact Hx.
+        * intros Hx. apply in_app_or in Hx. destruct Hx as [Hx | [<- | []]]; [apply HI; exact Hx | exact Hin].
+      + repeat split; auto.
+        * apply NoDup_snoc; assumption.
+        * intros Hx. apply in_app_or in Hx. apply in_or_app. destruct Hx as [Hx | Hx]; [left; apply HI; exact Hx | right; exact Hx].
+        * intros Hx. apply in_app_or in Hx. apply in_or_app. destruct Hx as [Hx | Hx]; [left; apply HI; exact Hx | right; exact Hx].
+  Qed.
+
+  Lemma fgood_not_fbad fs X : fgood fs X -> fbad fs -> False.
+  Proof.
+    intros (_ & _ & HV & HC) [(x & Hx & Hv) | (x & y & Hx & Hy & Hc)].
+    - rewrite (HV x Hx) in Hv. discriminate.
+    - rewrite (HC x y Hx Hy) in Hc. discriminate.
+  Qed.
+
+  Lemma collect_ok fs X : run addf fs [] = Ok X -> fgood fs X.
+  Proof. intros H. pose proof (collect_char fs) as C. rewrite H in C. exact C. Qed.
+
+  Lemma collect_err fs : run addf fs [] = Err <-> fbad fs.
+  Proof.
+    pose proof (collect_char fs) as C. split.
+    - intros H. rewrite H in C. exact C.
+    - intros Hb. destruct (run addf fs []) as [X| |]; [exfalso; eapply fgood_not_fbad; eauto | reflexivity | contradiction].
+  Qed.
+
+  Lemma fbad_same_set fs1 fs2 : same_set fs1 fs2 -> fbad fs1 -> fbad fs2.
+  Proof.
+    intros HS [(x & Hx & Hv) | (x & y & Hx & Hy & Hc)].
+    - left. exists x. split; [apply HS; exact Hx | exact Hv].
+    - right. exists x, y. repeat split; try (apply HS; assumption). exact Hc.
+  Qed.
+
+  Lemma collect_err_same_set fs1 fs2 : same_set fs1 fs2 -> run addf fs1 [] = Err -> run addf fs2 [] = Err.
+  Proof. intros HS H. apply collect_err. apply collect_err in H. eapply fbad_same_set; eauto. Qed.
+
+  Lemma collect_ok_same_set fs1 fs2 X1 X2 :
+    same_set fs1 fs2 -> run addf fs1 [] = Ok X1 -> run addf fs2 [] = Ok X2 -> Permutation X1 X2.
+  Proof.
+    intros HS H1 H2. apply collect_ok in H1. apply collect_ok in H2.
+    destruct H1 as (N1 & I1 & _). destruct H2 as (N2 & I2 & _).
+    apply NoDup_Permutation; auto. intros x. rewrite I1, I2. apply HS.
+  Qed.
+End Collect.
+
+Lemma same_set_sym {A} (l1 l2 : list A) : same_set l1 l2 -> same_set l2 l1.
+Proof. intros H x. symmetry. apply H. Qed.
+
+(* ------------------------------------------------------------------ *)
+(* Generic facts: the stable sort *)
+From Coq Require Import Sorted.
+
+Section Sort.
+  Context {A : Type} (le : A -> A -> bool).
+  Hypothesis le_total : forall x y, le x y = true \/ le y x = true.
+  Hypothesis le_trans : forall x y z, le x y = true -> le y z = true -> le x z = true.
+  Let R x y := le x y = true.
+
+  Lemma insert_perm x l : Permutation (insert le x l) (x :: l).
+  Proof.
+    induction l as [|y r IH]; simpl; [apply Permutation_refl|].
+    destruct (le x y); [apply Permutation_refl|].
+    eapply Permutation_trans; [apply perm_skip; exact IH | apply perm_swap].
+  Qed.
+
+  Lemma isort_perm l : Permutation (isort le l) l.
+  Proof.
+    induction l as [|x l IH]; simpl; [constructor|].
+    eapply Permutation_trans; [apply insert_perm | apply perm_skip; exact IH].
+  Qed.
+
+  Lemma insert_sorted x l : StronglySorted R l -> StronglySorted R (insert le x l).
+  Proof.
+    induction 1 as [|y r Hs IH Hall]; simpl.
+    - constructor; constructor.
+    - destruct (le x y) eqn:E.
+      + constructor; [constructor; assumption|].
+        constructor; [exact E|].
+        rewrite Forall_forall in *. intros z Hz. eapply le_trans; [exact E | apply Hall; exact Hz].
+      + constructor; [exact IH|].
+        rewrite Forall_forall in *. intros z Hz.
+        apply (Permutation_in _ (insert_perm x r)) in Hz. destruct Hz as [<- | Hz].
+        * destruct (le_total x y) as [H | H]; [congruence | exact H].
+        * apply Hall; exact Hz.
+  Qed.
+
+  Lemma isort_sorted l : StronglySorted R (isort le l).
+  Proof. induction l as [|x l IH]; simpl; [constructor | apply insert_sorted; exact IH]. Qed.
+
+  Lemma sorted_perm_unique l1 : forall l2,
+    StronglySorted R l1 -> StronglySorted R l2 -> Permutation l1 l2 ->
+    (forall x y, In x l1 -> In y l1 -> R x y -> R y x -> x = y) -> l1 = l2.
+  Proof.
+    induction l1 as [|a r1 IH]; intros l2 S1 S2 P Anti.
+    - apply Permutation_nil in P. symmetry; exact P.
+    - destruct l2 as [|b r2]; [apply Permutation_sym, Permutation_nil in P; discriminate|].
+      inversion S1 as [|? ? S1' F1]; subst. inversion S2 as [|? ? S2' F2]; subst.
+      rewrite Forall_forall in F1, F2.
+      assert (Hab : a = b).
+      { assert (Hb : In b (a :: r1)) by (apply (Permutation_in _ (Permutation_sym P)); left; reflexivity).
+        assert (Ha : In a (b :: r2)) by (apply (Permutation_in _ P); left; reflexivity).
+        destruct Hb as [Hb | Hb]; [exact Hb|]. destruct Ha as [Ha | Ha]; [symmetry; exact Ha|].
+        apply Anti; [left; reflexivity | right; exact Hb | apply F1; exact Hb | apply F2; exact Ha]. }
+      subst b. f_equal. apply IH; auto.
+      + eapply Permutation_cons_inv; exact P.
+      + intros x y Hx Hy. apply Anti; right; assumption.
+  Qed.
+
+  Lemma isort_perm_eq l1 l2 :
+    Permutation l1 l2 ->
+    (forall x y, In x l1 -> In y l1 -> le x y = true -> le y x = true -> x = y) ->
+    isort le l1 = isort le l2.
+  Proof.
+    intros P Anti. apply sorted_perm_unique; try apply isort_sorted.
+    - eapply Permutation_trans; [apply isort_perm|]. eapply Permutation_trans; [exact P|]. apply Permutation_sym, isort_perm.
+    - intros x y Hx Hy. apply Anti; apply (Permutation_in _ (isort_perm l1)); assumption.
+  Qed.
+End Sort.
+
+Lemma insert_ext {A} (le1 le2 : A -> A -> bool) : (forall x y, le1 x y = le2 x y) ->
+  forall x l, insert le1 x l = insert le2 x l.
+Proof. intros H x l. induction l as [|y r IH]; simpl; [reflexivity|]. rewrite H, IH. reflexivity. Qed.
+
+Lemma isort_ext {A} (le1 le2 : A -> A -> bool) : (forall x y, le1 x y = le2 x y) ->
+  forall l, isort le1 l = isort le2 l.
+Proof. intros H l. induction l as [|x l IH]; simpl; [reflexivity|]. rewrite IH. apply insert_ext. exact H. Qed.
+
+(* sorting by an integer key *)
+Lemma isort_key_perm_eq {A} (k : A -> Z) l1 l2 :
+  Permutation l1 l2 -> (forall x y, In x l1 -> In y l1 -> k x = k y -> x = y) ->
+  isort (fun x y => k x <=? k y) l1 = isort (fun x y => k x <=? k y) l2.
+Proof.
+  intros P Inj. apply isort_perm_eq; auto.
+  - intros x y. destruct (Z.le_ge_cases (k x) (k y)); [left | right]; apply Z.leb_le; assumption.
+  - intros x y z H1 H2. apply Z.leb_le in H1, H2. apply Z.leb_le. lia.
+  - intros x y Hx Hy H1 H2. apply Z.leb_le in H1, H2. apply Inj; auto. lia.
+Qed.
+
+(* strcmp order *)
+Lemma str_le_total a : forall b, str_le a b = true \/ str_le b a = true.
+Proof.
+  induction a as [|x a IH]; intros [|y b]; simpl; auto.
+  destruct (x <? y) eqn:E1; [auto|]. destruct (y <? x) eqn:E2; [auto|]. apply IH.
+Qed.
+
+Lemma str_le_trans a : forall b c, str_le a b = true -> str_le b c = true -> str_le a c = true.
+Proof.
+  induction a as [|x a IH]; intros [|y b] [|z c]; simpl; auto; try discriminate.
+  destruct (x <? y) eqn:E1; destruct (y <? x) eqn:E2; destruct (y <? z) eqn:E3; destruct (z <? y) eqn:E4;
+    destruct (x <? z) eqn:E5; destruct (z <? x) eqn:E6; auto; try discriminate;
+    repeat match goal with
+           | H : (_ <? _) = true |- _ => apply Z.ltb_lt in H
+           | H : (_ <? _) = false |- _ => apply Z.ltb_ge in H
+           end; try lia.
+  apply IH.
+Qed.
+
+Lemma str_le_antisym a : forall b, str_le a b = true -> str_le b a = true -> a = b.
+Proof.
+  induction a as [|x a IH]; intros [|y b]; simpl; auto; try discriminate.
+  destruct (x <? y) eqn:E1; destruct (y <? x) eqn:E2; try discriminate;
+    repeat match goal with
+           | H : (_ <? _) = true |- _ => apply Z.ltb_lt in H
+           | H : (_ <? _) = false |- _ => apply Z.ltb_ge in H
+           end; try lia.
+  intros H1 H2. f_equal; [lia | apply IH; assumption].
+Qed.
+
+(* ------------------------------------------------------------------ *)
+(* Generic facts: invariance under permutation *)
+Lemma perm_filter {A} (f : A -> bool) l1 l2 : Permutation l1 l2 -> Permutation (filter f l1) (filter f l2).
+Proof.
+  induction 1; simpl.
+  - constructor.
+  - destruct (f x); [apply perm_skip|]; assumption.
+  - destruct (f x), (f y); try apply Permutation_refl. apply perm_swap.
+  - eapply Permutation_trans; eassumption.
+Qed.
+
+Lemma perm_existsb {A} (f : A -> bool) l1 l2 : Permutation l1 l2 -> existsb f l1 = existsb f l2.
+Proof.
+  induction 1; simpl; auto.
+  - rewrite IHPermutation. reflexivity.
+  - destruct (f x), (f y); reflexivity.
+  - congruence.
+Qed.
+
+Lemma perm_forallb {A} (f : A -> bool) l1 l2 : Permutation l1 l2 -> forallb f l1 = forallb f l2.
+Proof.
+  induction 1; simpl; auto.
+  - rewrite IHPermutation. reflexivity.
+  - destruct (f x), (f y); reflexivity.
+  - congruence.
+Qed.
+
+Lemma existsb_ext_in {A} (f g : A -> bool) l : (forall x, In x l -> f x = g x) -> existsb f l = existsb g l.
+Proof.
+  induction l as [|x l IH]; intros H; simpl; [reflexivity|].
+  rewrite H by (left; reflexivity). rewrite IH; [reflexivity|]. intros y Hy. apply H. right; exact Hy.
+Qed.
+
+Lemma forallb_ext_in {A} (f g : A -> bool) l : (forall x, In x l -> f x = g x) -> forallb f l = forallb g l.
+Proof.
+  induction l as [|x l IH]; intros H; simpl; [reflexivity|].
+  rewrite H by (left; reflexivity). rewrite IH; [reflexivity|]. intros y Hy. apply H. right; exact Hy.
+Qed.
+
+Lemma find_perm_unique {A} (f : A -> bool) l1 l2 :
+  Permutation l1 l2 -> (forall x y, In x l1 -> In y l1 -> f x = true -> f y = true -> x = y) ->
+  find f l1 = find f l2.
+Proof.
+  intros P U. destruct (find f l1) as [x|] eqn:E1; destruct (find f l2) as [y|] eqn:E2; auto.
+  - apply find_some in E1. apply find_some in E2. destruct E1 as [I1 F1]. destruct E2 as [I2 F2].
+    f_equal. apply U; auto. apply (Permutation_in _ (Permutation_sym P)); exact I2.
+  - apply find_some in E1. destruct E1 as [I1 F1].
+    pose proof (find_none _ _ E2 x (Permutation_in _ P I1)). congruence.
+  - apply find_some in E2. destruct E2 as [I2 F2].
+    pose proof (find_none _ _ E1 y (Permutation_in _ (Permutation_sym P) I2)). congruence.
+Qed.
+
+(* minimum of a non-empty list *)
+Lemma lmin_char r rs : In (fold_right Z.min r rs) (r :: rs) /\ forall x, In x (r :: rs) -> fold_right Z.min r rs <= x.
+Proof.
+  induction rs as [|a rs IH]; simpl.
+  - split; [left; reflexivity | intros x [<- | []]; lia].
+  - destruct IH as [Hin Hle]. split.
+    + destruct (Z.min_spec a (fold_right Z.min r rs)) as [[_ ->] | [_ ->]].
+      * right; left; reflexivity.
+      * simpl in Hin. destruct Hin as [Hin | Hin]; [left; exact Hin | right; right; exact Hin].
+    + intros x [<- | [<- | Hx]].
+      * specialize (Hle r (or_introl eq_refl)). lia.
+      * lia.
+      * specialize (Hle x (or_intror Hx)). lia.
+Qed.
+
+Definition lmin (l : list Z) : Z := match l with [] => INT_MAX | r :: rs => fold_right Z.min r rs end.
+
+Lemma lmin_perm l1 l2 : Permutation l1 l2 -> lmin l1 = lmin l2.
+Proof.
+  intros P. destruct l1 as [|a r1]; destruct l2 as [|b r2]; simpl.
+  - reflexivity.
+  - apply Permutation_nil in P. discriminate.
+  - apply Permutation_sym, Permutation_nil in P. discriminate.
+  - destruct (lmin_char a r1) as [I1 L1]. destruct (lmin_char b r2) as [I2 L2].
+    pose proof (L1 _ (Permutation_in _ (Permutation_sym P) I2)).
+    pose proof (L2 _ (Permutation_in _ P I1)). lia.
+Qed.
+
+Lemma lmin_in l : l <> [] -> In (lmin l) l.
+Proof. destruct l as [|r rs]; [congruence|]. intros _. apply (lmin_char r rs). Qed.
